@@ -79,6 +79,15 @@ def judge(chk, c):
             sev = ops[0][1].get('sev') if ops else None
             res[mode] = (r.rc, sev, sc.read('out_%s.p21' % mode))
     for mode, (rc, sev, out) in res.items():
+        if c.where == 'complex part' and not c.optional:
+            # open finding (same root cause as C03's): parts of a complex instance are always read strictly and their severity is dropped,
+            # so a missing required attribute in a part is reported in neither mode - one key for the whole family
+            lenient_ok = (mode == 'lenient' and c.kind in LENIENT_KINDS)
+            good = (rc == 0 and sev == SEV_USERMSG) if lenient_ok else (rc != 0 and sev is not None and sev <= SEV_INCOMPLETE)
+            if not good:
+                found.append(('complex part|missing required attribute is not handled as documented in either mode',
+                              '%s %s in %s mode: exit %s, severity %s' % (c.kind, c.form, mode, rc, sev), files))
+            continue
         if c.optional:
             if rc != 0 or sev is None or sev < SEV_USERMSG:
                 found.append(('optional refused|%s|%s' % (c.shape(), mode), 'unset OPTIONAL attribute not accepted (exit %s, severity %s)' % (rc, sev), files))
@@ -91,7 +100,7 @@ def judge(chk, c):
             continue
         # lenient substitution
         if rc != 0 or sev != SEV_USERMSG:
-            found.append(('lenient substitution refused|%s' % c.shape(),
+            found.append(('lenient substitution refused|required %s' % c.kind,
                           'missing required %s in lenient mode must be accepted with a user message: exit %s, severity %s' % (c.kind, rc, sev), files))
             continue
         try:
